@@ -241,8 +241,9 @@ def check_case(spec, res):
             if got is not exp:
                 res.violation("covariance", [shape], spec, observed={"p": str(p), "t": str(t), "got": got},
                               acceptable=exp)
-        # parametrised vs bare origin
-        for p, t, exp in ((list[a], list, True), (list, list[a], False)):
+        # parametrised vs bare origin; same origin with a different number of arguments is not argument-wise comparable
+        for p, t, exp in ((list[a], list, True), (list, list[a], False), (tuple[a, b], tuple[a], False),
+                          (tuple[a], tuple[a, b], False), (type[tuple[a, b]], type[tuple[a]], False)):
             res.ev()
             res.count("law_covariance")
             got = subclasscheck(p, t)
